@@ -23,6 +23,7 @@ EXPLANATION = (
     "`enter`, and never by a handler, so a failure before the write leaves the source and one after it the target; "
     "no engine attribute other than queue and lock is written while processing, so nothing can stay 'stuck'. "
     "Residual: exceptions that are not Exception subclasses skip the queue clearing by design of `except Exception`."
+    " Added after seeded batch 9: the queue is cleared on both classes of exceptional edge out of _trigger (Exception and BaseException-only: KeyboardInterrupt, asyncio.CancelledError; F41), and a failure inside an awaitable a callback hands back surfaces because the wrapper awaits every awaitable result."
 )
 EXPLANATION += (
     " " + 'The invoker closures the dispatcher builds for resolved callbacks may not turn a failing attribute into a value (no default lookups, hasattr, suppress or non-re-raising handlers).'
